@@ -3,5 +3,10 @@ CHECKS = {
    technique='SMT (z3) over symbolic execution of go/ssa: cut-point round equivalence of cf, one-step inductive Write/Sum obligations with cf uninterpreted',
    text='Bounded symbolic model checking of the real sm3 code: (1) the compression function is proved equal to the GB/T 32905 round function for all chaining values and blocks (64 per-round solver queries at loop cut points); (2) from an arbitrary state satisfying the representation invariant one Write of every length in the bound and one Sum are executed symbolically and compared with the standard padding/fold, so histories of any length are covered by induction; counterexamples are replayed as go tests.',
    note='Trusted: go/ssa reflects the compiler, z3, the inductive composition argument. Bounds: per-Write length <= 191 bytes, total length < 2^61 bytes, quick tier uses boundary (nx,len) pairs.'),
+
+ 'C20': dict(level='model_checking',
+   technique='SMT (z3) over symbolic execution of go/ssa: per-path equivalence with lexicographic order; NAF by exhaustive forking at small n and one-step loop induction at n=257',
+   text='ConstantTimeCmp is executed symbolically for every l in the bound with all byte contents symbolic and each path result is proved equal to the sign of the big-endian comparison. DecomposeNAF is (a) run end-to-end on all inputs of 8/16 bits for w=1..7 (paths forked, digit-set and weighted-sum properties proved per path) and (b) for the production size n=257 one loop iteration is executed from every (position, carry) state with all 256 input bits symbolic and shown to preserve the recoding invariant, which gives all 2^256 inputs by induction.',
+   note='Trusted: go/ssa reflects the compiler, z3, the loop-induction argument and the stated invariant. Quick tier: w=4 at all positions, w=1,2,7 at boundary positions; thorough: w=1..7 at all positions.'),
 }
 NOT_APPLICABLE = {}
